@@ -29,6 +29,17 @@ CLAIMED = {
              "bound against its real signature, so a mis-bound argument is a TypeError): what they return is not decided.",
         technique="contract-based deductive verification: VCs from the real AST over a column-wise table model, z3 + cvc5",
         design="5/C18"),
+    "C09": dict(
+        text="TcrLevenshtein.calc_cdist_matrix is verified, for all six metric classes x table layouts x all positive weights and any number of rows, "
+             "to return the (len(anchors), len(comparisons)) array whose cell [i, j] is the sum over the chains and loops in the class's scope of chain "
+             "weight x loop weight x scorer(loop of anchor i, loop of comparison j), CDR3 from the table and CDR1 / CDR2 from the row's V allele ('' when "
+             "the allele has none), ValueError exactly for inputs that are not TCR tables, caller's tables untouched (frame); calc_pdist_vector = the "
+             "SciPy-condensed upper triangle of the self cdist; the constructors (base class and the five subclasses defining one) store the scorer = "
+             "weighted Levenshtein with the given (insertion, deletion, substitution) weights and the chain / loop weights as given (others 1).",
+        note=NOTE_COMMON + " rapidfuzz and tidytcells' reference data are assumed / uninterpreted; Enum members, class attributes, properties and super() "
+             "are interpreted by the generator; the column-wise table model is positional (no index labels).",
+        technique="contract-based deductive verification: VCs from the real AST (class hierarchy, cell-wise matrices over a column-wise table model), z3 + cvc5",
+        design="5/C09"),
     "C12": dict(
         text="levenshtein_neighbors / hamming_neighbors: every yield is a one-edit / one-substitution variant (index form), every such variant over the "
              "alphabet is yielded (run-start witnesses, proved by induction lemmas) and none twice, for all strings and alphabets of distinct letters. "
